@@ -43,6 +43,11 @@ KINDS = {
     'gotwant_blankline': (['>>> print("good FAILMARK")', '<BLANKLINE>'], 'GotWantException'),
     'gotwant_blankline_value': (['>>> gv = 5', '>>> gv  # FAILMARK', '<BLANKLINE>', '<BLANKLINE>'], 'GotWantException'),
     'gotwant_second': (['>>> print("ok")', 'ok', '>>> print("good")', 'FAILMARK bad'], 'GotWantException'),
+    # texts of several lines are reported as a diff; the diffed lines hold characters with a meaning for string formatting
+    'gotwant_diff_percent': (['>>> print("10% unpack", "50% build {x}", "90% test %s", "100% done", sep=chr(10))',
+                              'FAILMARK 10% unpack', '50% build {x}', '90% test %s', '100%'], 'GotWantException'),
+    'gotwant_diff_braces': (['>>> print("{0} a", "{} b", "{name!r:>{w}} c", "d", sep=chr(10))', 'FAILMARK {0} a', '{} b',
+                             '{name!r:>{w}} c', 'e'], 'GotWantException'),
     'raise': (['>>> raise ValueError("FAILMARK")'], 'ValueError'),
     'called_mod': (['>>> modfunc_bad()  # FAILMARK'], 'ZeroDivisionError'),
     'helper_short': (['>>> def hp():', '...     raise KeyError("k")', '>>> print("sep")', 'sep', '>>> zz = 1', '>>> yy = 2',
